@@ -1004,6 +1004,10 @@ class VM:
 
         hint can be "default", "number", or "string"
         """
+        if isinstance(value, JSFunction):
+            # A function converts to the text its toString gives
+            method = self._get_property(value, "toString")
+            return method() if callable(method) else "function () { [native code] }"
         if not isinstance(value, JSObject):
             return value
 
@@ -1039,7 +1043,7 @@ class VM:
 
     def _to_string(self, value: JSValue) -> str:
         """Convert to string, with ToPrimitive (hint string) for objects."""
-        if isinstance(value, JSObject):
+        if isinstance(value, (JSObject, JSFunction)):
             value = self._to_primitive(value, "string")
         return to_string(value)
 
@@ -1056,9 +1060,9 @@ class VM:
     def _add(self, a: JSValue, b: JSValue) -> JSValue:
         """JavaScript + operator."""
         # First convert objects to primitives
-        if isinstance(a, JSObject):
+        if isinstance(a, (JSObject, JSFunction)):
             a = self._to_primitive(a, "default")
-        if isinstance(b, JSObject):
+        if isinstance(b, (JSObject, JSFunction)):
             b = self._to_primitive(b, "default")
 
         # String concatenation if either is string
